@@ -134,8 +134,10 @@ def items(tier):
     i = 0
     inputs = INPUTS_T if tier == 'thorough' else INPUTS_Q
     for pi in range(len(progs)):
+        if tier == 'quick' and progs[pi][0][0] == 2 and progs[pi][0][3] in ('rec', 'trystop', 'nestlit', 'twolit', 'writemin', 'incr', 'writearr'):
+            continue        # quick: these actions only without and with one extra scalar in the frame
         for W in ((2, 3, 4, 8) if tier == 'thorough' else ((2, 2, 3, 2, 4, 2, 8)[pi % 7],)):
-            out.append((i, pi, W, inputs if tier == 'thorough' else inputs[(pi % 2)::2] + inputs[:1]))
+            out.append((i, pi, W, inputs if tier == 'thorough' else inputs[(pi % 2)::2] + (inputs[:1] if pi % 2 else [])))
             i += 1
     return out
 
@@ -168,6 +170,7 @@ def coverage(total, tier):
         'M': f'{len(programs())} programs = scalar frames (0,1,3 scalars) x arrays (none; literal and VLA of int/byte/bool/string; literals whose '
              'elements are calls) x actions (indexed store/read, compound store, by-reference callee, callee with its own array, every '
              'write overload, write of the most negative integer as the deepest call, recursion, try/stop with defeat two calls deep, nested literal with call elements)',
+        'quick_thinning': 'the actions rec/trystop/nestlit/twolit/writemin/incr/writearr are not combined with the three-scalar frame variant in the quick tier',
         'inputs': '(length n, index i) pairs incl. negative, zero, last, one past, far out of range: ' + str(INPUTS_T if tier == 'thorough' else INPUTS_Q),
         'stack_sizes': 'every size from 1 word up to S_min+8, plus 256 and 1024 words',
         'word_sizes': '2,3,4,8' if tier == 'thorough' else 'one per program, rotating 2,2,3,2,4,2,8',
